@@ -134,7 +134,11 @@ func devMain(args []string) {
 					status = "VACUOUS? " + r.Result
 				}
 			}
-			fmt.Printf("   %-50s %-16s %-10s %.2fs %dB %s\n", r.Name, status, r.Solver, r.TimeS, r.SMTBytes, r.Clause)
+			where := ""
+			if r.Result != "unsat" && !r.Canary {
+				where = " @" + r.Where
+			}
+			fmt.Printf("   %-50s %-16s %-10s %.2fs %dB %s%s\n", r.Name, status, r.Solver, r.TimeS, r.SMTBytes, r.Clause, where)
 			if r.Result == "error" {
 				fmt.Println("      ", strings.SplitN(r.Output, "\n", 3)[0], r.File)
 			}
